@@ -21,6 +21,8 @@ Line-protocol driver for C05 (op grammar: harness/hx-c05/src/bin/c05.rs).
         | 'I' view (InertElement) | 'K' key* ']' | 'k' key* ']' (keyed lists) | 'Z' view | 'z' (Result)
         | '#' digits ';' (u32) | 'a' hex ';' (Arc<str>) | 'c' hex ';' (Cow<str>) | '3' i view (EitherOf3)
         | 'Y' view* ')' ([AnyView; N]) | 'W' view (OwnedView) | 'F' view (closure)
+        | 'J' kind ('e'|'t') key* ']' (keyed list fed by an iterator of kind 0..8: Vec, array, range-map, filter, from_fn,
+          flat_map, chain, once-chain, Option; item `<b>{key}</b>` / `{key}`)
         | 'X' fid ';' view (Suspend on future fid) | 'Q' (fid '.' key ';')* ']' (keyed, items `<b>{Suspend(key)}</b>`)
 These share `to_html` / `hydrate` / `rebuild` with modelled constructors and are decoded as such:
 `InertElement(html of v)` = the static element `v` (its children are not walked by the real code, which
@@ -208,10 +210,29 @@ partial def parseView (sd : Nat) (cs : List Char) : Option (View × List Char) :
     let (v, r) ← parseView sd r
     -- `rebuild` of a closure always builds the new effect and replaces the old one: two different tags
     pure (.any (.either (if sd = 0 then [] else [.unit])) (wrap v), r)
+  | 'J' :: kd :: it :: r => do
+    -- a keyed list fed by an iterator of kind `kd` (Vec, array, range-map, filter, from_fn, flat_map, chain, once, Option):
+    -- the same view whatever the size hint; each kind is its own Rust type
+    if !kd.isDigit || kd == '9' || (it != 'e' && it != 't') then none
+    let (ks, r) ← parseKeys r []
+    let n := ks.length
+    let ok := match kd with
+      | '1' => n ≤ 3
+      | '7' => n ≥ 1
+      | '8' => n ≤ 1
+      | _ => true
+    if !ok then none
+    -- `[String; n]`: the length is part of the type
+    let kd := if kd == '1' then s!"1/{n}" else kd.toString
+    if it == 'e' then
+      pure (.any (.vec (.elem ("#each" ++ kd) [] .text)) (.vec (ks.map fun k => View.elem "b" [] (.tuple [.text k]))), r)
+    else
+      pure (.any (.vec (.elem ("#eacht" ++ kd) [] .unit)) (.vec (ks.map View.text)), r)
   | 'X' :: r => do
     let (f, r) ← natField r
     let (v, r) ← parseView sd r
-    if f > 15 || !(fidsOf v).isEmpty then none
+    -- at most one `Suspend` level inside the value of a `Suspend`
+    if f > 15 || suspDepth v > 1 then none
     -- `Suspend<AnyView>`: see Model/Hydrate, section "Suspend and the streamed forms"
     pure (.any (suspTy f) (.osome (wrap v)), r)
   | 'Q' :: r => do
@@ -283,13 +304,15 @@ def hydTail (head : String) (htmlS : Hydrate.Str) (a b : View) (cls? : Option St
       -- hydrated world: the writes of the walk (the empty string's `" "` becomes `""`), then the rebuild
       let dh := settle o.state d
       -- a `Suspend` rebuilds in a task: first everything else (`syncPart`), then the values of the `Suspend`s
-      let (dp, st1) := if twoPhase then rebuild false (syncPart a b) o.state dh else (dh, o.state)
+      let (dp, st1) := if twoPhase then rebuild false (syncPart 0 a b) o.state dh else (dh, o.state)
+      let (dp, st1) := if twoPhase then rebuild false (syncPart 1 a b) st1 dp else (dp, st1)
       let (d1, _) := rebuild false b st1 dp
       -- the twin lives in the same arena, as in the harness
       let (d2, root2) := d1.createElement "div"
       let (d2, st2) := build a d2
       let d2 := mount st2 d2 root2 none
-      let (d2, st2) := if twoPhase then rebuild false (syncPart a b) st2 d2 else (d2, st2)
+      let (d2, st2) := if twoPhase then rebuild false (syncPart 0 a b) st2 d2 else (d2, st2)
+      let (d2, st2) := if twoPhase then rebuild false (syncPart 1 a b) st2 d2 else (d2, st2)
       let (d2, _) := rebuild false b st2 d2
       let after := (serializeKids d1 root).getD []
       let csr := (serializeKids d2 root2).getD []
